@@ -127,6 +127,10 @@ func realNodeProbe(c *cliEnv) (vs []cliViolation, stats map[string]interface{}) 
 	}
 	h, ok2, died := waitHeight(3, 60*time.Second)
 	if died {
+		if strings.Contains(logBuf.String(), "address already in use") {
+			stats["real_node"] = "inconclusive: a loopback port was taken by another process"
+			return
+		}
 		vs = append(vs, cliViolation{"boot.node", "start", "the node process exited before producing blocks: " + tail(logBuf.String(), 400), []string{"start"}})
 		return
 	}
